@@ -451,7 +451,17 @@ func genC20HtmlNet(r *rng, n int, w *bufio.Writer) {
 			} else if r.chance(1, 5) {
 				d.ce = "identity"
 			}
+			var members []int
+			if j.useGz && r.chance(1, 2) {
+				// a gzip stream of several members (group R4, op_r4_c20.go); it decompresses to the same body
+				var md string
+				d.wire, members, md = gzMembers(r, body, window)
+				j.note += "; " + md
+			}
 			d.parts, d.desc = c20Parts(r, len(d.wire), first, !j.useGz)
+			if members != nil && r.chance(1, 3) {
+				d.parts, d.desc = members, "one write per gzip member"
+			}
 			d.pause = pick(r, []time.Duration{0, 300 * time.Microsecond, 300 * time.Microsecond, time.Millisecond, 3 * time.Millisecond})
 			if len(d.parts) > 24 && d.pause > 300*time.Microsecond {
 				d.pause = 300 * time.Microsecond
